@@ -26,6 +26,9 @@ func VMToBytesTypeCrv(vm *did.VerificationMethod) ([]byte, kms.KeyType, string, 
 		return vm.Value, kms.ED25519Type, "Ed25519", nil
 	case jsonWebKey2020, jwsVerificationKey2020:
 		k := vm.JSONWebKey()
+		if k == nil {
+			return nil, "", "", fmt.Errorf("verification method of type '%s' has no JWK", vm.Type)
+		}
 
 		kb, err := k.PublicKeyBytes()
 		if err != nil {
@@ -50,6 +53,9 @@ func VMToTypeCrv(vm *did.VerificationMethod) (kms.KeyType, string, error) {
 		return kms.ED25519Type, "Ed25519", nil
 	case jsonWebKey2020, jwsVerificationKey2020:
 		k := vm.JSONWebKey()
+		if k == nil {
+			return "", "", fmt.Errorf("verification method of type '%s' has no JWK", vm.Type)
+		}
 
 		kt, err := k.KeyType()
 		if err != nil {
